@@ -100,42 +100,65 @@ ASSUMPTIONS = [
     "subdomain_data objects are harness objects with ufl_id(); integrals carrying them are not eval(repr)-ed",
 ]
 BUDGET = {"quick": 50, "thorough": 330}
-NCASES = {"quick": 640, "thorough": 8000}
+NCASES = {"quick": 6400, "thorough": 160000}
 WORKERS = {"quick": 16, "thorough": 16}
 EVAL_COUNTER = "pairs"
 FLOORS = {
     "quick": {
-        "pairs": 150000,
-        "near_miss_pairs": 3000,
-        "near_miss_unequal_ok": 2500,
-        "identical_pairs": 1500,
-        "eq_true": 3000,
-        "triples": 2000,
-        "snapshots_rechecked": 5000,
-        "pickle_roundtrips": 1500,
-        "evalrepr_roundtrips": 1500,
+        "pairs": 2000000,
+        "near_miss_pairs": 200000,
+        "near_miss_unequal_ok": 200000,
+        "identical_pairs": 40000,
+        "eq_true": 40000,
+        "triples": 500000,
+        "snapshots_rechecked": 50000,
+        "container_lookups": 8000,
+        "pickle_roundtrips": 9000,
+        "evalrepr_roundtrips": 5000,
         "xproc_objects": 60,
-        "mutants": 600,
-        "cases": 400,
-        "case_forms": 80,
-        "families": 25,
+        "xproc_objects_other-hashseed": 30,
+        "xproc_objects_same-hashseed": 30,
+        "mutants": 12000,
+        "regenerated_twins": 1500,
+        "cases": 3500,
+        "case_forms": 800,
+        "families": 29,
     },
     "thorough": {
-        "pairs": 600000,
-        "near_miss_pairs": 3000,
-        "near_miss_unequal_ok": 2500,
-        "identical_pairs": 10000,
-        "eq_true": 30000,
-        "triples": 20000,
-        "snapshots_rechecked": 50000,
-        "pickle_roundtrips": 10000,
-        "evalrepr_roundtrips": 10000,
+        "pairs": 12000000,
+        "near_miss_pairs": 200000,
+        "near_miss_unequal_ok": 200000,
+        "identical_pairs": 800000,
+        "eq_true": 800000,
+        "triples": 10000000,
+        "snapshots_rechecked": 900000,
+        "container_lookups": 8000,
+        "pickle_roundtrips": 150000,
+        "evalrepr_roundtrips": 75000,
         "xproc_objects": 200,
-        "mutants": 6000,
-        "cases": 5000,
-        "case_forms": 1000,
-        "families": 25,
+        "xproc_objects_other-hashseed": 100,
+        "xproc_objects_same-hashseed": 100,
+        "mutants": 250000,
+        "regenerated_twins": 30000,
+        "cases": 70000,
+        "case_forms": 17000,
+        "families": 29,
     },
+}
+FAMILY_NAMES = [
+    "Constant", "Coefficient", "Argument", "Cofunction", "Coargument", "ScalarValue", "FloatValue-nonfinite", "Zero",
+    "Identity+PermutationSymbol", "Label+Variable", "MultiIndex", "Operators", "Integral", "Integral-ndarray", "Form",
+    "BaseForms", "BaseFormOperators",
+] + [f"GeometricQuantity[{k}]" for k in range(12)]
+TERMINAL_CLASSES = [
+    "Constant", "Coefficient", "Argument", "Cofunction", "Coargument", "IntValue", "FloatValue", "ComplexValue", "Zero",
+    "Identity", "PermutationSymbol", "Label", "Variable", "MultiIndex", "Integral", "Form", "Matrix", "ZeroBaseForm",
+    "FormSum", "Action", "Adjoint", "ExternalOperator", "Interpolate", "SpatialCoordinate", "FacetNormal", "Jacobian",
+    "CellVolume", "QuadratureWeight", "PositiveRestricted", "NegativeRestricted",
+]
+COVER_FLOORS = {
+    "quick": {"families": FAMILY_NAMES, "classes": TERMINAL_CLASSES},
+    "thorough": {"families": FAMILY_NAMES, "classes": TERMINAL_CLASSES},
 }
 
 warnings.simplefilter("ignore")
@@ -252,10 +275,32 @@ class Obs:
         return clsname(self.o) + "(" + ", ".join(f"{k}={v}" for k, v in self.data.items()) + ")"
 
 
+def node_tag(o):
+    """Exotic literal data that get their own mechanism names."""
+    import math
+
+    if isinstance(o, FloatValue):
+        v = float(o._value)
+        if v != v:
+            return "-nan"
+        if math.isinf(v):
+            return "-inf"
+    if isinstance(o, ComplexValue):
+        v = complex(o._value)
+        for x in (v.real, v.imag):
+            if x != x or math.isinf(x):
+                return "-nonfinite"
+        if (v.real == 0 and math.copysign(1, v.real) < 0) or (v.imag == 0 and math.copysign(1, v.imag) < 0):
+            return "-signed-zero"
+    return ""
+
+
 def first_diff(a, b):
     """Class name of the smallest node where two trees differ (mechanism naming only)."""
     if type(a) is not type(b):
         return f"{clsname(a)}~{clsname(b)}"
+    if isinstance(a, Expr) and a._ufl_is_terminal_:
+        return clsname(a) + (node_tag(a) or node_tag(b))
     if isinstance(a, Form):
         ia, ib = a.integrals(), b.integrals()
         if len(ia) != len(ib):
@@ -297,8 +342,9 @@ def pair_key(A, B):
 
 
 def okey(P, culprit=None):
-    c = clsname(P.o if culprit is None else culprit)
-    return f"{c}-{P.tag}" if P.tag else c
+    o = P.o if culprit is None else culprit
+    c = clsname(o)
+    return f"{c}-{P.tag}" if P.tag else c + node_tag(o)
 
 
 def signature_of(o):
@@ -691,6 +737,9 @@ def fam_scalars(W):
         F.add({"value": repr(v)}, lambda v=v: FloatValue(v))
     for v in [1j, 2j, 1 + 1j, 1 - 1j, 1.5 + 1j, 1.5000000000000002 + 1j, 1 + 1e-300j]:
         F.add({"value": repr(v)}, lambda v=v: ComplexValue(v))
+    # what -ComplexValue(1j) and conj() produce: a zero real part with a sign
+    for v in [complex(-0.0, 1.0), complex(-0.0, -1.0), complex(0.0, -1.0)]:
+        F.add({"value": repr(v)}, lambda v=v: ComplexValue(v), tag="signed-zero")
     return F
 
 
@@ -1216,7 +1265,7 @@ def xproc(ctx, tag, seed_a, seed_b, nobj):
                 {"repr": r["repr"][:400]},
             )
             continue
-        how = "hash-cached-before-dump" if r["hashed"] else "hash-not-cached-before-dump"
+        how = "used as dict key before the dump" if r["hashed"] else "not used as dict key before the dump"
         if not r["same_data"] or not r["same_repr"]:
             ctx.violation(
                 f"C13/pickle-cross-process/different-data/{tag}/{r['cls']}",
@@ -1226,16 +1275,16 @@ def xproc(ctx, tag, seed_a, seed_b, nobj):
             continue
         if not (r["eq_lf"] and r["eq_fl"]):
             ctx.violation(
-                f"C13/pickle-cross-process/unequal-to-identical-object/{tag}/{how}",
+                f"C13/pickle-cross-process/unequal-to-identical-object/{tag}",
                 f"unpickled in another interpreter ({tag}), the object is != an identical object built there "
-                f"(eq {r['eq_lf']}/{r['eq_fl']}, hash equal: {r['hash_equal']}, found in dict: {r['in_dict']})",
+                f"(eq {r['eq_lf']}/{r['eq_fl']}, hash equal: {r['hash_equal']}, found in dict: {r['in_dict']}; {how})",
                 {"repr": r["repr"][:400], "cls": r["cls"]},
             )
         elif not r["hash_equal"] or not r["in_dict"]:
             ctx.violation(
-                f"C13/pickle-cross-process/equal-but-different-hash/{tag}/{how}",
+                f"C13/pickle-cross-process/equal-but-different-hash/{tag}",
                 f"unpickled in another interpreter ({tag}), the object is == an identical object built there but "
-                f"hash equal: {r['hash_equal']}, found in dict: {r['in_dict']}",
+                f"hash equal: {r['hash_equal']}, found in dict: {r['in_dict']} ({how})",
                 {"repr": r["repr"][:400], "cls": r["cls"]},
             )
 
@@ -1290,6 +1339,45 @@ def restricted_paths(e, path, out):
         out.append(path)
     for k, x in enumerate(e.ufl_operands):
         restricted_paths(x, path + (k,), out)
+
+
+MUTABLE = (Coefficient, Argument, Constant, IntValue, FloatValue, ComplexValue, GeometricQuantity, Label)
+SWAPPABLE = ("Division", "Power", "LT", "GT", "LE", "GE", "Atan2", "Outer", "Cross", "ListTensor", "Conditional", "Dot", "MinValue", "MaxValue")
+RENAME = {"Sin": "Cos", "Cos": "Sin", "Exp": "Tanh", "Tanh": "Atan", "Atan": "Erf", "Erf": "Sin", "Sinh": "Cosh", "Cosh": "Sinh",
+          "LT": "LE", "GT": "GE", "LE": "LT", "GE": "GT", "EQ": "NE", "NE": "EQ", "MinValue": "MaxValue", "MaxValue": "MinValue",
+          "Real": "Imag", "Imag": "Real", "Grad": "NablaGrad", "Div": "NablaDiv", "Sym": "Skew", "Skew": "Sym",
+          "AndCondition": "OrCondition", "OrCondition": "AndCondition", "BesselJ": "BesselY", "BesselI": "BesselK",
+          "CellAvg": "FacetAvg", "FacetAvg": "CellAvg"}
+
+
+def operator_paths(e, path, out):
+    if e._ufl_is_terminal_:
+        return
+    out.append(path)
+    for k, x in enumerate(e.ufl_operands):
+        operator_paths(x, path + (k,), out)
+
+
+def operator_mutant(t0, rng):
+    """Same tree with one operator node changed: two operands swapped or the node class replaced."""
+    ops = []
+    operator_paths(t0, (), ops)
+    rng.shuffle(ops)
+    for p in ops[:12]:
+        nd = node_at(t0, p)
+        cn = clsname(nd)
+        o = nd.ufl_operands
+        if cn in RENAME and rng.random() < 0.6:
+            new = getattr(UC, RENAME[cn])(*o)
+            if type(new).__name__ == RENAME[cn]:
+                return rebuild(t0, p, new)
+        if cn in SWAPPABLE and len(o) >= 2:
+            a, b = (1, 2) if cn == "Conditional" else rng.sample(range(len(o)), 2)
+            if shapeinfo(o[a]) == shapeinfo(o[b]) and o[a] is not o[b]:
+                lst = list(o)
+                lst[a], lst[b] = lst[b], lst[a]
+                return rebuild(t0, p, nd._ufl_expr_reconstruct_(*lst))
+    return None
 
 
 def node_at(e, path):
@@ -1415,13 +1503,24 @@ def case(ctx, i, rng):
                 nd = node_at(t0, p)
                 flip = UC.NegativeRestricted if isinstance(nd, UC.PositiveRestricted) else UC.PositiveRestricted
                 m = rebuild(t0, p, flip(nd.ufl_operands[0]))
+            elif rng.random() < 0.3:
+                m = operator_mutant(t0, rng)
+                if m is None:
+                    ctx.count("mutant_no_variant")
+                    continue
+                ctx.count("mutants_operator")
             else:
+                tp = [q for q in tp if isinstance(node_at(t0, q), MUTABLE)]
+                if not tp:
+                    ctx.count("mutant_no_variant")
+                    continue
                 p = rng.choice(tp)
                 new = near_miss_terminal(node_at(t0, p), U, rng, other_mesh)
                 if new is None:
                     ctx.count("mutant_no_variant")
                     continue
                 m = rebuild(t0, p, new)
+                ctx.covered("mutated_terminals", clsname(new))
         except Exception:
             ctx.count("mutants_rejected")
             continue
